@@ -1262,7 +1262,7 @@ class _Response:
 
 
 @harness('N5', targets=['kopf._cogs.clients.api.get', 'kopf._cogs.clients.api.post', 'kopf._cogs.clients.api.patch',
-                        'kopf._cogs.clients.api.delete'], props=['C12', 'C08'],
+                        'kopf._cogs.clients.api.delete'], props=['C12', 'C08', 'C19', 'C13', 'C03'],
          clauses=['goes_through_request', 'arguments_passed_through', 'returns_the_parsed_body', 'response_released',
                   'failures_propagate'],
          canaries=['canary.never_fails', 'canary.always_fails'],
